@@ -30,6 +30,7 @@ func selftest(args []string) int {
 	}
 	var mu sync.Mutex
 	bad := 0
+	fatal := 0
 	sem := make(chan struct{}, 16)
 	var wg sync.WaitGroup
 	for i := 0; i < n; i++ {
@@ -56,16 +57,22 @@ func selftest(args []string) int {
 					same = false
 				}
 			}
-			if !same || strings.HasPrefix(hashes[0], "ERR") {
+			if !same {
 				mu.Lock()
 				bad++
 				fmt.Printf("NONDETERMINISTIC seed %d: %v\n", seed, hashes)
+				mu.Unlock()
+			} else if strings.HasPrefix(hashes[0], "ERR") {
+				// the in-process run died the same way in all four processes
+				// (a crash image that kills recovery fatally): deterministic
+				mu.Lock()
+				fatal++
 				mu.Unlock()
 			}
 		}()
 	}
 	wg.Wait()
-	fmt.Printf("selftest %s: %d seeds x 4 processes (GOMAXPROCS 1/4/16/2), %d mismatches\n", prop, n, bad)
+	fmt.Printf("selftest %s: %d seeds x 4 processes (GOMAXPROCS 1/4/16/2), %d mismatches, %d seeds died identically in all four (fatal recovery of a crash image)\n", prop, n, bad, fatal)
 	if bad > 0 {
 		return 2
 	}
